@@ -98,7 +98,7 @@ def run(chk):
               'histories: TLC simulation walks of SymTree.tla; distinct = distinct triples / action sequences')
   single_ops(chk, 'C02_export_thorough.cfg' if thorough else 'C02_export.cfg')
   hits = {}
-  plan = [('C01_sim.cfg', 500, 30)] if not thorough else [('C01_sim.cfg', 5000, 40), ('C01_sim_obj.cfg', 2000, 40)]
+  plan = [('C01_sim.cfg', 1200, 30)] if not thorough else [('C01_sim.cfg', 5000, 40), ('C01_sim_obj.cfg', 2000, 40)]
   for cfg, num, depth in plan:
     h = symtree_check.replay_simulated(chk, cfg, CLAUSES, num, depth, chk.seed + 17, name='C02-' + cfg,
                                        batches=1 if not thorough else 8)
